@@ -1,5 +1,6 @@
 import Glom.Py.Json
 import Glom.Spec.C15
+import Glom.Spec.C15Lazy
 import Glom.Model.C15Env
 /-
   C15 driver.
@@ -17,6 +18,11 @@ import Glom.Model.C15Env
   Op:   "iadd"|"add"|"append"|"cons"|"update"|"first_wins";  null = omitted
   R:    {"err":[cls,isGlomError]} | {"imm":Val} | {"input":addr} | {"prev":i} | {"fresh":Obj}
   a float is {"f": the 16 hex digits of its IEEE-754 bit pattern} (NaN canonical)
+
+  a PULL case ("pull": true; prog = Flatten(init='lazy') or flatten(levels=k, init='lazy'), one
+  evaluation whose target is a generator cell) observes the laziness instead:
+         "impl":{"created":n, "pulls":[{"item":Val,"f":n} | {"stop":n} | {"error":[cls,isGlomError],"f":n} …]}
+  `n` = how many items the source generator has been asked for at that moment
 -/
 namespace Glom.C15.Driver
 open Lean Glom Glom.C15
@@ -192,7 +198,59 @@ def hasReg : List Event → Bool
   | .register .. :: _ => true
   | .eval _ :: es => hasReg es
 
+def pullOfJson (j : Json) : Except String (Lazy.PullObs × String) := do
+  if let .ok v := j.getObjVal? "item" then
+    return (.item (← valOfJson v) (← j.getObjValAs? Nat "f"), "")
+  else if let .ok n := j.getObjValAs? Nat "stop" then return (.stop n, "")
+  else
+    match ← arrOf (← j.getObjVal? "error") with
+    | [c, _] => return (.error (← j.getObjValAs? Nat "f"), ← strOfJson c)
+    | _ => throw "bad error pull"
+
+def pullToJson : Lazy.PullObs → Json
+  | .item v f => Json.mkObj [("item", valToJson v), ("f", f)]
+  | .stop f => Json.mkObj [("stop", f)]
+  | .error f => Json.mkObj [("error", Json.arr #[Json.str "TypeError", Json.bool false]), ("f", f)]
+
+def runToJson (r : Nat × List Lazy.PullObs) : Json :=
+  Json.mkObj [("created", r.1), ("pulls", Json.arr (r.2.map pullToJson).toArray)]
+
+/-- a PULL case: the laziness of `Flatten(init='lazy')` / `flatten(levels=k, init='lazy')` -/
+def runPull (j : Json) : Except String Json := do
+  let heap ← heapOfJson (← j.getObjVal? "heap")
+  let events ← eventsOfJson j
+  let prog ← progOfJson (← j.getObjVal? "prog")
+  let impl ← j.getObjVal? "impl"
+  if !(wfCase heap (Event.targets events) && keysOk heap && cellsOk heap) then
+    return Json.mkObj [("skip", true), ("why", "heap not closed / malformed")]
+  let k ← (match prog with
+    | .flatten [] .lazy => pure 1
+    | .flattenFn [] .lazy l => if l ≥ 1 then pure l.toNat else throw "pull case needs levels >= 1"
+    | _ => throw "pull case needs a lazy Flatten / flatten() without sub-spec")
+  let target ← (match events with
+    | [.eval t] => pure t
+    | _ => throw "pull case needs exactly one evaluation")
+  let some xs := rawIter1 heap target | throw "pull case needs an iterable source"
+  if let .ok r := impl.getObjVal? "raised" then
+    return Json.mkObj [("agree", false), ("holds", false), ("branch", "pull:evaluation-raised"),
+      ("why", s!"the lazy evaluation itself raised {r.compress}")]
+  let created ← impl.getObjValAs? Nat "created"
+  let ps ← listOfJson pullOfJson (← impl.getObjVal? "pulls")
+  let implRun : Nat × List Lazy.PullObs := (created, ps.map (·.1))
+  -- an error pull must be a TypeError
+  let errOk := ps.all (fun p => match p.1 with | .error _ => p.2 == "TypeError" | _ => true)
+  let modelRun := Lazy.lazyRun heap k xs
+  let agree := modelRun == implRun && errOk
+  let holds := Lazy.checkLazy heap k xs implRun && errOk
+  let tag := match modelRun.2.getLast? with
+    | some (.stop _) => "stop" | some (.error _) => "err-TypeError" | _ => "?"
+  return Json.mkObj [("agree", agree), ("holds", holds),
+    ("model_holds", Lazy.checkLazy heap k xs modelRun),
+    ("model", runToJson modelRun), ("expected", runToJson (Lazy.refLazyRun heap k xs)),
+    ("branch", s!"pull(levels={if k > 3 then 4 else k}):{tag}")]
+
 def run (j : Json) : Except String Json := do
+  if let .ok (.bool true) := j.getObjVal? "pull" then return ← runPull j
   let heap ← heapOfJson (← j.getObjVal? "heap")
   let events ← eventsOfJson j
   let targets := Event.targets events
